@@ -4,24 +4,24 @@
 //! UintVector (bulk + push).
 use crate::util::*;
 use serde_json::{json, Value};
-use zipora::blob_store::sorted_uint_vec::{SortedUintVecBuilder, SortedUintVecConfig};
-use zipora::containers::specialized::{IntVec, PackedInt, UintVector};
+use zipora::containers::specialized::UintVector;
 use zipora::containers::{UintVecMin0, ZipIntVec};
 
+#[path = "c09_sorted.rs"] mod sorted;
+#[path = "c09_intvec.rs"] mod intvec;
+
 const HEADER: &str = r#"From ZV.Common Require Import Base Run.
-From ZV.C09 Require Import Model.
+From ZV.C09 Require Import Cases.
 Open Scope N_scope.
-Definition case_t : Type := list (N * list N) * list (list Z).
-Fixpoint eqb_llz (a b : list (list Z)) : bool :=
-  match a, b with
-  | [], [] => true
-  | x :: a', y :: b' => eqb_lz x y && eqb_llz a' b'
-  | _, _ => false
-  end.
-Definition ok (c : case_t) : bool := let '(ops, expect) := c in eqb_llz (run_ops empty ops) expect.
 "#;
 
-struct Ctx { sum: Summary, shards: CoqShards, budget: usize }
+pub struct Ctx {
+    pub sum: Summary, pub shards: CoqShards, pub budget: usize,
+    pub model_sorted: bool, pub n_sorted_coq: usize, pub cap_sorted_coq: usize,
+    pub model_intvec: bool, pub n_intvec_coq: usize, pub cap_intvec_coq: usize,
+    pub model_zip: bool, pub n_zip_coq: usize, pub cap_zip_coq: usize,
+    pub n_min0_coq: usize, pub cap_min0_coq: usize,
+}
 
 fn le_number(data: &[u8]) -> String {
     // decimal rendering of the little-endian number denoted by `data`
@@ -86,9 +86,10 @@ fn min0_history(cx: &mut Ctx, ops: &[(u32, Vec<u64>)], force: bool) {
         }
     }
     // model comparison is meaningful only where the model is defined (bits <= 58 paths)
-    if !wide && (force || cx.shards.len() < cx.budget) {
+    if !wide && (force || (cx.shards.len() < cx.budget && cx.n_min0_coq < cx.cap_min0_coq)) {
+        cx.n_min0_coq += 1;
         let ops_coq: Vec<String> = ops.iter().map(|(o, a)| format!("({}, {})", o, coq_n_list(a.iter().map(|&x| x as u128)))).collect();
-        let term = format!("([{}], [{}])", ops_coq.join("; "), obs.join("; "));
+        let term = format!("CMin0 [{}] [{}]", ops_coq.join("; "), obs.join("; "));
         cx.shards.push(term, cj);
     }
 }
@@ -127,6 +128,7 @@ fn gen_history(r: &mut Rng) -> Vec<(u32, Vec<u64>)> {
     ops
 }
 
+
 fn check_seq<T: Copy + PartialEq + std::fmt::Debug>(cx: &mut Ctx, cell: &str, class: Option<&str>, cj: Value,
         want: &[T], len: usize, get: impl Fn(usize) -> Option<T>) {
     if len != want.len() {
@@ -145,145 +147,113 @@ fn check_seq<T: Copy + PartialEq + std::fmt::Debug>(cx: &mut Ctx, cell: &str, cl
     }
 }
 
-fn intvec_case<T: PackedInt + PartialEq + std::fmt::Debug + Copy + std::panic::RefUnwindSafe>(cx: &mut Ctx, tname: &str, vals: &[T], shown: Vec<String>, class: Option<&'static str>) {
-    for (ctor, cname) in [(0, "from_slice"), (1, "from_slice_bulk"), (2, "from_slice_bulk_simd")] {
-        let cell = format!("IntVec<{}>/{}", tname, cname);
-        cx.sum.eval(&cell, &format!("{} {:?}", cell, shown), vals.len() >= 2);
-        cx.sum.cell_status(&cell, "S-only");
-        let cj = json!({"cell": "intvec", "type": tname, "ctor": ctor, "values": shown});
-        let r = guarded(|| match ctor { 0 => IntVec::<T>::from_slice(vals), 1 => IntVec::<T>::from_slice_bulk(vals), _ => IntVec::<T>::from_slice_bulk_simd(vals) });
-        match r {
-            Err(p) => cx.sum.fail(&cell, class, cj, &format!("constructor panicked: {}", p)),
-            Ok(Err(_)) => cx.sum.dist("build_refused"),
-            Ok(Ok(iv)) => {
-                let len = iv.len();
-                let rr = guarded(|| { let mut out = vec![]; for i in 0..vals.len() + 8 { out.push(iv.get(i)); } out });
-                match rr {
-                    Err(p) => cx.sum.fail(&cell, class, cj, &format!("get panicked: {}", p)),
-                    Ok(out) => check_seq(cx, &cell, class, cj, vals, len, |i| out.get(i).copied().flatten()),
-                }
-            }
-        }
-    }
-}
-
-macro_rules! intvec_family {
-    ($cx:expr, $r:expr, $t:ty, $name:expr) => {{
-        let r: &mut Rng = $r;
-        let n = *r.pick(&[0usize, 1, 2, 3, 63, 64, 65, 127, 128, 129, 200]);
-        let n = if r.chance(1, 2) { n.min(12) } else { n };
-        let min = <$t>::MIN; let max = <$t>::MAX;
-        let kind = r.below(7);
-        let vals: Vec<$t> = (0..n).map(|i| match kind {
-            0 => 42 as $t,
-            1 => (i as i128 % 100) as $t,
-            2 => (r.below(16)) as $t,
-            3 => r.next() as $t,
-            4 => if r.chance(1, 20) { max } else { (r.below(8)) as $t },
-            5 => *r.pick(&[min, max, 0 as $t, 1 as $t, max - 1]),
-            _ => { let mut x = r.next() as $t; if i % 2 == 0 { x = x >> 1; } x }
-        }).collect();
-        let _ = (min, max);
-        let lo = vals.iter().map(|&v| v as i128).min().unwrap_or(0);
-        let hi = vals.iter().map(|&v| v as i128).max().unwrap_or(0);
-        let class = if std::mem::size_of::<$t>() == 8 && hi - lo >= (1i128 << 58) { Some("intvec_width_above_58") }
-                    else { None };
-        let shown: Vec<String> = vals.iter().map(|v| v.to_string()).collect();
-        intvec_case::<$t>($cx, $name, &vals, shown, class);
-    }};
-}
-
-fn sorted_case(cx: &mut Ctx, preset: usize, vals: &[u64]) {
-    let (cfg, pname, w) = match preset {
-        0 => (SortedUintVecConfig::default(), "default", 16u32),
-        1 => (SortedUintVecConfig::performance_optimized(), "performance", 20),
-        _ => (SortedUintVecConfig::memory_optimized(), "memory", 12),
-    };
-    let bs = cfg.block_size();
-    let cell = format!("SortedUintVec/{}", pname);
-    cx.sum.eval(&cell, &format!("{} {:?}", cell, vals), vals.len() >= 2);
-    cx.sum.cell_status(&cell, "S-only");
-    let cj = json!({"cell": "sorted", "preset": preset, "values": vals.iter().map(|v| v.to_string()).collect::<Vec<_>>()});
-    let r = guarded(|| {
-        let mut b = SortedUintVecBuilder::with_config(cfg);
-        for &v in vals { if b.push(v).is_err() { return Err("push refused".to_string()); } }
-        b.finish().map_err(|e| format!("{:?}", e))
-    });
-    // oracle for "reports an error": some in-block delta does not fit the offset width
-    let fits = vals.chunks(bs).all(|c| c.iter().all(|&v| v - c[0] < (1u64 << w)));
-    match r {
-        Err(p) => cx.sum.fail(&cell, None, cj, &format!("build panicked: {}", p)),
-        Ok(Err(_)) => { cx.sum.dist("sorted_build_refused"); if fits { cx.sum.dist("sorted_refused_although_fits"); } }
-        Ok(Ok(sv)) => {
-            let rr = guarded(|| {
-                let mut out = vec![];
-                for i in 0..vals.len() + 2 { out.push(sv.get(i).ok()); }
-                let mut pairs = vec![];
-                for i in 0..vals.len().saturating_sub(1) { pairs.push(sv.get2(i).ok()); }
-                let mut blocks: Vec<Option<Vec<u64>>> = vec![];
-                for b in 0..sv.num_blocks() { let mut o = vec![0u64; bs]; blocks.push(sv.get_block(b, &mut o).ok().map(|_| o)); }
-                (sv.len(), out, pairs, blocks)
-            });
-            match rr {
-                Err(p) => cx.sum.fail(&cell, None, cj, &format!("read panicked: {}", p)),
-                Ok((len, out, pairs, blocks)) => {
-                    check_seq(cx, &cell, None, cj.clone(), vals, len, |i| out.get(i).copied().flatten());
-                    for (i, p) in pairs.iter().enumerate() {
-                        if *p != Some((vals[i], vals[i + 1])) { cx.sum.fail(&cell, None, cj.clone(), &format!("get2({}) = {:?}", i, p)); break; }
-                    }
-                    for (b, blk) in blocks.iter().enumerate() {
-                        let want = &vals[b * bs..((b + 1) * bs).min(vals.len())];
-                        match blk {
-                            Some(o) if &o[..want.len()] == want => {}
-                            other => { cx.sum.fail(&cell, None, cj.clone(), &format!("get_block({}) = {:?}", b, other.as_ref().map(|o| &o[..want.len().min(4)]))); break; }
-                        }
-                    }
-                }
-            }
-        }
-    }
-}
-
 fn uintvector_case(cx: &mut Ctx, vals: &[u32], by_push: bool) {
     let cell = if by_push { "UintVector/push" } else { "UintVector/build_from" };
     cx.sum.eval(cell, &format!("{} {:?}", cell, vals), vals.len() >= 2);
     cx.sum.cell_status(cell, "S-only");
     let cj = json!({"cell": "uintvector", "push": by_push, "values": vals});
+    let n = vals.len();
     let r = guarded(|| {
-        let uv = if by_push { let mut u = UintVector::new(); for &v in vals { u.push(v).map_err(|e| format!("{:?}", e))?; } u }
-                 else { UintVector::build_from(vals).map_err(|e| format!("{:?}", e))? };
-        let out: Vec<Option<u32>> = (0..vals.len() + 8).map(|i| uv.get(i)).collect();
-        Ok::<_, String>((uv.len(), out))
+        let mut mid: Vec<(usize, usize, Option<u32>, Option<u32>)> = vec![];
+        let uv = if by_push {
+            let mut u = UintVector::new();
+            for (k, &v) in vals.iter().enumerate() {
+                u.push(v).map_err(|e| format!("{:?}", e))?;
+                // incremental construction: the prefix must be readable after every push (sampled)
+                if k % 7 == 0 || (k + 1) % 64 <= 1 || k + 1 == n { let j = (k * 5 + 3) % (k + 1); mid.push((k, u.len(), u.get(j), u.get(k + 1))); }
+            }
+            u
+        } else { UintVector::build_from(vals).map_err(|e| format!("{:?}", e))? };
+        let out: Vec<Option<u32>> = (0..n + 8).map(|i| uv.get(i)).collect();
+        Ok::<_, String>((uv.len(), uv.is_empty(), out, uv.get(usize::MAX), mid))
     });
     match r {
         Err(p) => cx.sum.fail(cell, None, cj, &format!("panicked: {}", p)),
         Ok(Err(_)) => cx.sum.dist("build_refused"),
-        Ok(Ok((len, out))) => check_seq(cx, cell, None, cj, vals, len, |i| out.get(i).copied().flatten()),
+        Ok(Ok((len, empty, out, far, mid))) => {
+            if empty != (n == 0) { cx.sum.fail(cell, None, cj.clone(), "is_empty wrong"); }
+            if far.is_some() { cx.sum.fail(cell, None, cj.clone(), "get(usize::MAX) not refused"); }
+            for (k, l, g, past) in mid {
+                let j = (k * 5 + 3) % (k + 1);
+                if l != k + 1 || g != Some(vals[j]) || past.is_some() {
+                    cx.sum.fail(cell, None, cj.clone(), &format!("after push #{}: len {} get({}) = {:?} (stored {}), get({}) = {:?}", k, l, j, g, vals[j], k + 1, past));
+                    break;
+                }
+            }
+            check_seq(cx, cell, None, cj, vals, len, |i| out.get(i).copied().flatten());
+        }
     }
 }
 
-fn zip_case(cx: &mut Ctx, vals: &[u64], by_push: bool) {
-    let cell = if by_push { "ZipIntVec/push" } else { "ZipIntVec/build_from" };
+/// modes: 0 build_from_usize, 1 new(0,min,max)+push_back, 2 build_from_u32, 3 new(0,min,min+1)+push_back (bit expansion on the way)
+fn zip_case(cx: &mut Ctx, vals: &[u64], mode: u32, force_coq: bool) {
+    let cell = ["ZipIntVec/build_from", "ZipIntVec/push", "ZipIntVec/build_from_u32", "ZipIntVec/push_growing"][mode as usize % 4];
     cx.sum.eval(cell, &format!("{} {:?}", cell, vals), vals.len() >= 2);
-    cx.sum.cell_status(cell, "S-only");
-    let cj = json!({"cell": "zip", "push": by_push, "values": vals.iter().map(|v| v.to_string()).collect::<Vec<_>>()});
+    cx.sum.cell_status(cell, if cx.model_zip { "M+S" } else { "S-only" });
+    let cj = json!({"cell": "zip", "mode": mode, "values": vals.iter().map(|v| v.to_string()).collect::<Vec<_>>()});
+    let n = vals.len();
     let mn = vals.iter().min().copied().unwrap_or(0);
     let mx = vals.iter().max().copied().unwrap_or(0);
-    let class = if mn == mx && mn == u64::MAX { Some("zip_all_equal_usize_max") } else if mx - mn >= (1u64 << 58) { Some("min0_width_above_58") } else { None };
+    let class = if mx - mn >= (1u64 << 58) { Some("min0_width_above_58") } else { None };
     let src: Vec<usize> = vals.iter().map(|&v| v as usize).collect();
-    let r = guarded(|| {
-        let z = if by_push {
-            let mut z = ZipIntVec::new(0, mn as usize, (mx as usize).max(mn as usize + 1));
+    if (mode % 4 == 1 || mode % 4 == 3) && mn == u64::MAX { return; } // ZipIntVec::new needs min < max: no admissible pair
+    let built = guarded(|| match mode % 4 {
+        0 => ZipIntVec::build_from_usize(&src),
+        2 => ZipIntVec::build_from_u32(&vals.iter().map(|&v| v as u32).collect::<Vec<_>>()),
+        m => {
+            let hi = if m == 1 { (mx as usize).max(mn as usize + 1) } else { mn as usize + 1 };
+            let mut z = ZipIntVec::new(0, mn as usize, hi);
             z.resize(0);
             for &v in &src { z.push_back(v); }
             z
-        } else { ZipIntVec::build_from_usize(&src) };
-        let out: Vec<u64> = (0..src.len()).map(|i| z.get(i) as u64).collect();
-        (z.size(), out)
+        }
+    });
+    let mut obs: Vec<String> = vec![];
+    match built {
+        Err(p) => { obs.push("[(-1)]%Z".into()); cx.sum.fail(cell, class, cj.clone(), &format!("construction panicked: {}", p)); }
+        Ok(z) => {
+            obs.push(format!("[0; {}; {}; {}]%Z", z.size(), z.uintbits(), z.min_val()));
+            let mut gets: Vec<Result<usize, String>> = vec![];
+            for i in 0..n { let z2 = &z; gets.push(guarded(move || z2.get(i))); }
+            let mut bad: Option<String> = None;
+            if z.size() != n { bad = Some(format!("size {} want {}", z.size(), n)); }
+            if z.is_empty() != (n == 0) && bad.is_none() { bad = Some("is_empty wrong".into()); }
+            for i in 0..n { if gets[i] != Ok(src[i]) && bad.is_none() { bad = Some(format!("element {} reads back {:?}, stored {}", i, gets[i], src[i])); } }
+            for i in 0..n.saturating_sub(1) {
+                let z2 = &z; let g2 = guarded(move || z2.get2(i));
+                if g2 != Ok([src[i], src[i + 1]]) && bad.is_none() { bad = Some(format!("get2({}) = {:?}", i, g2)); }
+            }
+            if n > 0 { let z2 = &z; let b = guarded(move || z2.back()); if b != Ok(src[n - 1]) && bad.is_none() { bad = Some(format!("back() = {:?}", b)); } }
+            // out-of-range reads must be refused (the API returns a plain usize, so the refusal is the documented panic)
+            for i in [n, n + 1, usize::MAX] {
+                let z2 = &z; let g = guarded(move || z2.get(i));
+                obs.push(match &g { Ok(v) => format!("[0; {}]%Z", v), Err(_) => "[(-1)]%Z".into() });
+                if let Ok(v) = g { if bad.is_none() { bad = Some(format!("get({}) past the end returned {}", i, v)); } }
+            }
+            { let z2 = &z; let g = guarded(move || z2.get2(n.saturating_sub(1))); if let Ok(v) = g { if bad.is_none() { bad = Some(format!("get2 past the end returned {:?}", v)); } } }
+            if let Some(d) = bad { cx.sum.fail(cell, class, cj.clone(), &d); }
+            obs.push(format!("[{}]%Z", gets.iter().map(|g| match g { Ok(v) => v.to_string(), Err(_) => "(-1)".to_string() }).collect::<Vec<_>>().join("; ")));
+        }
+    }
+    if cx.model_zip && class.is_none() && n <= 200 && (force_coq || (cx.shards.len() < cx.budget && cx.n_zip_coq < cx.cap_zip_coq)) {
+        cx.n_zip_coq += 1;
+        cx.shards.push(format!("CZip {} {} [{}]", mode % 4, coq_n_list(vals.iter().map(|&v| v as u128)), obs.join("; ")), cj);
+    }
+}
+
+/// UintVecMin0::build_from_i32 / build_from_u32 (value = min + stored offset)
+fn min0_typed_case(cx: &mut Ctx, vals: &[i64], signed: bool) {
+    let cell = if signed { "UintVecMin0/build_from_i32" } else { "UintVecMin0/build_from_u32" };
+    cx.sum.eval(cell, &format!("{} {:?}", cell, vals), vals.len() >= 2);
+    cx.sum.cell_status(cell, "S-only");
+    let cj = json!({"cell": "min0typed", "signed": signed, "values": vals.iter().map(|v| v.to_string()).collect::<Vec<_>>()});
+    let r = guarded(|| {
+        if signed { let v: Vec<i32> = vals.iter().map(|&x| x as i32).collect(); let (m, mn) = UintVecMin0::build_from_i32(&v); (m.size(), (0..v.len()).map(|i| mn as i64 + m.get(i) as i64).collect::<Vec<i64>>()) }
+        else { let v: Vec<u32> = vals.iter().map(|&x| x as u32).collect(); let (m, mn) = UintVecMin0::build_from_u32(&v); (m.size(), (0..v.len()).map(|i| mn as i64 + m.get(i) as i64).collect::<Vec<i64>>()) }
     });
     match r {
-        Err(p) => cx.sum.fail(cell, class, cj, &format!("panicked: {}", p)),
-        Ok((len, out)) => check_seq(cx, cell, class, cj, vals, len, |i| out.get(i).copied()),
+        Err(p) => cx.sum.fail(cell, None, cj, &format!("panicked: {}", p)),
+        Ok((len, out)) => check_seq(cx, cell, None, cj, vals, len, |i| out.get(i).copied()),
     }
 }
 
@@ -291,100 +261,129 @@ fn parse_u64s(v: &Value) -> Vec<u64> {
     v.as_array().map(|a| a.iter().map(|x| x.as_str().map(|s| s.parse::<u64>().unwrap_or(0)).unwrap_or_else(|| x.as_u64().unwrap_or(0))).collect()).unwrap_or_default()
 }
 
-fn run_one(cx: &mut Ctx, c: &Value) {
+fn run_one(cx: &mut Ctx, c: &Value, rng: &mut Rng) {
     match c["cell"].as_str() {
         Some("min0") => {
             let ops: Vec<(u32, Vec<u64>)> = c["ops"].as_array().unwrap().iter().map(|o| (o[0].as_u64().unwrap() as u32, parse_u64s(&o[1]))).collect();
             min0_history(cx, &ops, true);
         }
-        Some("sorted") => sorted_case(cx, c["preset"].as_u64().unwrap_or(0) as usize, &parse_u64s(&c["values"])),
+        Some("sorted") => {
+            let cfg = if let Some(a) = c["cfg"].as_array() { sorted::SCfg { log2: a[0].as_u64().unwrap_or(6) as u8, ow: a[1].as_u64().unwrap_or(16) as u8, sw: a[2].as_u64().unwrap_or(32) as u8, simd: a[3].as_u64().unwrap_or(1) != 0 } }
+                      else { sorted::preset(c["preset"].as_u64().unwrap_or(0) as usize) };
+            sorted::sorted_case(cx, cfg, &parse_u64s(&c["values"]), true)
+        }
         Some("uintvector") => uintvector_case(cx, &parse_u64s(&c["values"]).iter().map(|&x| x as u32).collect::<Vec<_>>(), c["push"].as_bool().unwrap_or(false)),
-        Some("zip") => zip_case(cx, &parse_u64s(&c["values"]), c["push"].as_bool().unwrap_or(false)),
+        Some("zip") => { let mode = c["mode"].as_u64().map(|m| m as u32).unwrap_or(if c["push"].as_bool().unwrap_or(false) { 1 } else { 0 }); zip_case(cx, &parse_u64s(&c["values"]), mode, true) }
+        Some("min0typed") => { let v: Vec<i64> = c["values"].as_array().unwrap().iter().map(|x| x.as_str().unwrap_or("0").parse::<i64>().unwrap_or(0)).collect(); min0_typed_case(cx, &v, c["signed"].as_bool().unwrap_or(false)) }
         Some("intvec") => {
             let strs: Vec<String> = c["values"].as_array().unwrap().iter().map(|x| x.as_str().unwrap().to_string()).collect();
-            macro_rules! go { ($t:ty, $n:expr) => {{ let v: Vec<$t> = strs.iter().map(|s| s.parse::<$t>().unwrap()).collect(); intvec_case::<$t>(cx, $n, &v, strs.clone(), None); }}; }
+            let ctor = c["ctor"].as_u64().unwrap_or(0) as usize;
+            macro_rules! go { ($t:ty) => {{ let v: Vec<$t> = strs.iter().map(|s| s.parse::<$t>().unwrap()).collect(); intvec::intvec_case::<$t>(cx, &v, "replay", &[ctor.min(2)], true, rng); }}; }
             match c["type"].as_str().unwrap_or("u32") {
-                "u8" => go!(u8, "u8"), "u16" => go!(u16, "u16"), "u32" => go!(u32, "u32"), "u64" => go!(u64, "u64"),
-                "i8" => go!(i8, "i8"), "i16" => go!(i16, "i16"), "i32" => go!(i32, "i32"), _ => go!(i64, "i64"),
+                "u8" => go!(u8), "u16" => go!(u16), "u32" => go!(u32), "u64" => go!(u64),
+                "i8" => go!(i8), "i16" => go!(i16), "i32" => go!(i32), _ => go!(i64),
             }
         }
         _ => {}
     }
 }
 
+fn all_types(cx: &mut Ctx, rng: &mut Rng, size_class: u32) {
+    intvec::gen_intvec::<u8>(cx, rng, size_class); intvec::gen_intvec::<u16>(cx, rng, size_class);
+    intvec::gen_intvec::<u32>(cx, rng, size_class); intvec::gen_intvec::<u64>(cx, rng, size_class);
+    intvec::gen_intvec::<i8>(cx, rng, size_class); intvec::gen_intvec::<i16>(cx, rng, size_class);
+    intvec::gen_intvec::<i32>(cx, rng, size_class); intvec::gen_intvec::<i64>(cx, rng, size_class);
+}
+
 pub fn run(args: &Args) {
+    if std::env::var("C09_LOUD").is_ok() { std::panic::set_hook(Box::new(|i| { if let Some(l) = i.location() { if l.file().contains("harness") || l.file().contains("c09") { eprintln!("harness panic at {}:{}", l.file(), l.line()); } } })); }
+    let th = args.thorough;
     let mut cx = Ctx {
-        sum: Summary::new("C09", "UintVecMin0: generated operation histories (new/set/get/push_back/resize/clear/build_from/dump) at widths 0,1,3,7,8,9,13,31,32,33,57,58 with values at mask and mask+1, every element read back and raw memory dumped, compared with the Coq model and with a shadow Vec; other containers: sequences of lengths around 64/128-element blocks (constant, small range, full range, outliers, type extremes), every element and two indices past the end read back; SortedUintVec deltas at 2^w-1, 2^w, 2^w+1; non-trivial = history of >=3 ops or sequence of >=2 elements"),
-        shards: CoqShards::new(HEADER, 120),
-        budget: if args.thorough { 12000 } else { 1400 },
+        sum: Summary::new("C09", "UintVecMin0: generated operation histories (new/set/get/push_back/resize/clear/build_from/dump) at widths 0,1,3,7,8,9,13,31,32,33,57,58 with values at mask and mask+1, every element read back and raw memory dumped, compared with the Coq model and with a shadow Vec; IntVec<8 types> x 3 constructors: all sequences of length <=4 over {0,1,MAX-1,MAX,MIN}, then 13 shapes (constant, arithmetic, sorted small/big steps, sorted with a jump near the end, one inversion, small range, full range, few huge outliers, type extremes, per-block bases, around zero, shifted random) at lengths 0..257 around 4/8/32/64/128/256 and (fewer) around 1000/1024/2048/10000/16384, read back at every index (sampled above 400) and five indices past the end; SortedUintVec: three presets and custom (block 16..256, offset 8..32, sample 16..64 bits, simd on/off, some invalid) x sorted sequences whose in-block deltas sit at 2^w-1, 2^w, 2^w+1 and whose bases sit at the sample-width limit and at u64::MAX, get/get2/get_block at every index and past the end; ZipIntVec: build_from_usize/u32, push with fixed and growing width, values up to usize::MAX; UintVector build_from and push (prefix re-read during construction) incl. runs and >1000 elements; non-trivial = history of >=3 ops or sequence of >=2 elements"),
+        shards: CoqShards::new(HEADER, 100),
+        budget: if th { 12000 } else { 1450 },
+        model_sorted: MODEL_SORTED, n_sorted_coq: 0, cap_sorted_coq: if th { 4000 } else { 450 },
+        model_intvec: MODEL_INTVEC, n_intvec_coq: 0, cap_intvec_coq: if th { 4000 } else { 450 },
+        model_zip: MODEL_ZIP, n_zip_coq: 0, cap_zip_coq: if th { 2000 } else { 200 },
+        n_min0_coq: 0, cap_min0_coq: if th { 3000 } else { 350 },
     };
     let mut rng = Rng::new(args.seed);
     if let Some(f) = &args.replay {
         let v: Value = serde_json::from_str(&std::fs::read_to_string(f).expect("replay file")).expect("json");
         let c = if v.get("case").is_some() { v["case"].clone() } else { v };
-        run_one(&mut cx, &c);
+        run_one(&mut cx, &c, &mut rng);
         let sh = cx.shards.write(&args.out);
         cx.sum.write(&args.out, sh);
         return;
     }
-    if let Ok(rd) = std::fs::read_dir("/verif/corpus/C09") {
+    let corpus = if std::path::Path::new("corpus/C09").is_dir() { "corpus/C09" } else { "/verif/corpus/C09" };
+    if let Ok(rd) = std::fs::read_dir(corpus) {
         let mut files: Vec<_> = rd.filter_map(|e| e.ok()).map(|e| e.path()).collect();
         files.sort();
         for p in files {
             if let Ok(v) = serde_json::from_str::<Value>(&std::fs::read_to_string(&p).unwrap_or_default()) {
                 let c = if v.get("case").is_some() { v["case"].clone() } else { v };
-                run_one(&mut cx, &c);
+                run_one(&mut cx, &c, &mut rng);
                 cx.sum.dist("corpus_cases");
             }
         }
     }
-    let nh = if args.thorough { 30000 } else { 2500 };
+    // enumerated small universe (IntVec)
+    intvec::enum_small::<u8>(&mut cx, &mut rng); intvec::enum_small::<i8>(&mut cx, &mut rng);
+    intvec::enum_small::<u16>(&mut cx, &mut rng); intvec::enum_small::<i16>(&mut cx, &mut rng);
+    intvec::enum_small::<u32>(&mut cx, &mut rng); intvec::enum_small::<i32>(&mut cx, &mut rng);
+    intvec::enum_small::<u64>(&mut cx, &mut rng); intvec::enum_small::<i64>(&mut cx, &mut rng);
+    let nh = if th { 30000 } else { 2000 };
     for i in 0..nh {
         let ops = gen_history(&mut rng);
         if i < 2 { cx.sum.sample(json!({"min0_history": ops.iter().take(8).map(|(o, a)| json!([o, a.iter().take(6).collect::<Vec<_>>()])).collect::<Vec<_>>()})); }
         min0_history(&mut cx, &ops, false);
     }
-    let nv = if args.thorough { 12000 } else { 1200 };
+    let nv = if th { 12000 } else { 2000 };
     for i in 0..nv {
-        intvec_family!(&mut cx, &mut rng, u8, "u8");
-        intvec_family!(&mut cx, &mut rng, u16, "u16");
-        intvec_family!(&mut cx, &mut rng, u32, "u32");
-        intvec_family!(&mut cx, &mut rng, u64, "u64");
-        intvec_family!(&mut cx, &mut rng, i8, "i8");
-        intvec_family!(&mut cx, &mut rng, i16, "i16");
-        intvec_family!(&mut cx, &mut rng, i32, "i32");
-        intvec_family!(&mut cx, &mut rng, i64, "i64");
-        // sorted sequences with boundary deltas
-        let preset = (i % 3) as usize;
-        let w = [16u32, 20, 12][preset];
-        let n = *rng.pick(&[0usize, 1, 2, 63, 64, 65, 127, 128, 129, 130, 200]);
-        let mut cur = rng.below(1 << 20);
-        let special_at = rng.below(n as u64 + 1) as usize;
-        let mut vals = vec![];
-        for k in 0..n {
-            let step = if k == special_at && rng.chance(1, 2) { *rng.pick(&[(1u64 << w) - 1, 1u64 << w, (1u64 << w) + 1, (1u64 << w) / 2]) } else { let m = *rng.pick(&[1u64, 2, 50, 700]); rng.below(m) };
-            cur = cur.saturating_add(step);
-            vals.push(cur);
-        }
-        sorted_case(&mut cx, preset, &vals);
-        if n >= 2 && rng.chance(1, 3) {
-            // the last element of a block sits exactly 2^w-1 / 2^w above the block's first
-            let bs = if preset == 1 { 128 } else { 64 };
-            let m = bs.min(n);
-            let base = vals[0];
-            let mut v2: Vec<u64> = (0..m as u64).map(|k| base + k).collect();
-            let top = *rng.pick(&[(1u64 << w) - 1, 1u64 << w]);
-            *v2.last_mut().unwrap() = base + top.max(m as u64);
-            sorted_case(&mut cx, preset, &v2);
-        }
-        let uv: Vec<u32> = (0..n).map(|k| match i % 5 { 0 => 7, 1 => k as u32, 2 => rng.next() as u32, 3 => if rng.chance(1, 30) { u32::MAX } else { rng.below(9) as u32 }, _ => (rng.below(1000) as u32) << (rng.below(22) as u32) }).collect();
+        all_types(&mut cx, &mut rng, 0);
+        if i % 12 == 0 { all_types(&mut cx, &mut rng, 1); }
+        if i % 175 == 3 { all_types(&mut cx, &mut rng, 2); }
+        sorted::gen_sorted(&mut cx, &mut rng, i);
+        sorted::gen_sorted(&mut cx, &mut rng, i + 1);
+        // UintVector
+        let n = if i % 40 == 7 { *rng.pick(&[1000usize, 1001, 1002, 1063, 1064, 1100]) } else { *rng.pick(&[0usize, 1, 2, 3, 4, 5, 63, 64, 65, 127, 128, 129, 130, 191, 192, 193, 200, 300]) };
+        let mut run_left = 0u64; let mut run_val = 0u32;
+        let uv: Vec<u32> = (0..n).map(|k| match i % 7 {
+            0 => 7, 1 => k as u32, 2 => rng.next() as u32, 3 => if rng.chance(1, 30) { u32::MAX } else { rng.below(9) as u32 },
+            4 => (rng.below(1000) as u32) << (rng.below(22) as u32),
+            5 => { if run_left == 0 { run_left = 1 + rng.below(40); run_val = if rng.chance(1, 4) { rng.next() as u32 } else { rng.below(5) as u32 }; } run_left -= 1; run_val }
+            _ => u32::MAX - rng.below(3) as u32 }).collect();
         uintvector_case(&mut cx, &uv, false);
         uintvector_case(&mut cx, &uv, true);
-        let zv: Vec<u64> = (0..n.max(1)).map(|_| { let sh = *rng.pick(&[1u32, 8, 20, 40, 57]); 1000 + rng.below(1u64 << sh) }).collect();
-        zip_case(&mut cx, &zv, false);
-        zip_case(&mut cx, &zv, true);
+        // ZipIntVec
+        let zn = *rng.pick(&[1usize, 1, 2, 3, 10, 63, 64, 65, 130]);
+        let sh = *rng.pick(&[0u32, 1, 8, 20, 40, 57, 58, 59, 63]);
+        let zbase = match rng.below(4) { 0 => 0u64, 1 => 1000, 2 => u64::MAX - if sh >= 63 { u64::MAX >> 1 } else { (1u64 << sh) - 1 }, _ => rng.next() >> 1 };
+        let zv: Vec<u64> = (0..zn).map(|_| zbase.saturating_add(if sh == 0 { 0 } else { rng.below(1u64 << sh) + if rng.chance(1, 6) { 0 } else { 0 } })).collect();
+        let mut zv = zv; if sh > 0 && sh < 63 && zn >= 2 && rng.chance(1, 2) { zv[0] = zbase; zv[zn - 1] = zbase.saturating_add((1u64 << sh) - 1); }
+        zip_case(&mut cx, &zv, 0, false);
+        zip_case(&mut cx, &zv, 1, false);
+        zip_case(&mut cx, &zv, 3, false);
+        let zv32: Vec<u64> = zv.iter().map(|&v| v & 0xFFFF_FFFF).collect();
+        zip_case(&mut cx, &zv32, 2, false);
+        // UintVecMin0 typed builders
+        let tn = *rng.pick(&[1usize, 2, 3, 64, 65]);
+        let tv: Vec<i64> = (0..tn).map(|_| match i % 4 { 0 => rng.below(100) as i64 - 50, 1 => *rng.pick(&[i32::MIN as i64, i32::MAX as i64, 0, -1, 1]), 2 => (rng.next() as i32) as i64, _ => i32::MIN as i64 + rng.below(1000) as i64 }).collect();
+        min0_typed_case(&mut cx, &tv, true);
+        let tu: Vec<i64> = tv.iter().map(|&x| (x as i32 as u32) as i64).collect();
+        min0_typed_case(&mut cx, &tu, false);
     }
     cx.sum.dist_max("coq_cases", cx.shards.len() as u64);
+    cx.sum.dist_max("coq_cases_min0", cx.n_min0_coq as u64);
+    cx.sum.dist_max("coq_cases_sorted", cx.n_sorted_coq as u64);
+    cx.sum.dist_max("coq_cases_zip", cx.n_zip_coq as u64);
+    cx.sum.dist_max("coq_cases_intvec", cx.n_intvec_coq as u64);
     let sh = cx.shards.write(&args.out);
     cx.sum.write(&args.out, sh);
 }
+
+// which mechanism models exist on the Coq side (coq/C09/Cases.v must know the constructor)
+const MODEL_SORTED: bool = true;
+const MODEL_INTVEC: bool = false;
+const MODEL_ZIP: bool = true;
